@@ -217,6 +217,26 @@ def _exec_wide(args):
                 if row_.get('k') != 'arith':
                     break
                 acc = common.unwint(row_['cz'][0])
+        # the register is an explicit out= / out_like= object in wrap mode fed by operands of OTHER formats and signedness
+        # (no fractional narrowing: the register's n_frac is the exact result's)
+        for _ in range(count // 2 + 1):
+            op = rng.choice(['mul', 'mul', 'add', 'sub'])
+            wx, wy = rng.choice([(30, 30), (31, 31), (28, 33), (20, 40), (12, 50), (8, 8), (26, 27), (rng.randint(2, 31), rng.randint(2, 31))])
+            sx, sy = rng.choice([(True, False), (False, True), (True, True), (False, False)])
+            fx_, fy_ = rng.randint(0, min(wx, 6)), rng.randint(0, min(wy, 6))
+            tf_ = fx_ + fy_ if op == 'mul' else max(fx_, fy_)
+            tw = rng.choice([8, 16, 24, 31, 32, 33, 48, 52])
+            if tw < tf_:
+                continue
+            rx = ((-(1 << (wx - 1)), (1 << (wx - 1)) - 1) if sx else (0, (1 << wx) - 1))
+            ry = ((-(1 << (wy - 1)), (1 << (wy - 1)) - 1) if sy else (0, (1 << wy) - 1))
+            n = rng.choice([1, 3])
+            cx = [rng.choice([rx[0], rx[1], rng.randint(*rx), rng.randint(*rx)]) for _ in range(n)]
+            cy = [rng.choice([ry[0], ry[1], rng.randint(*ry), rng.randint(*ry)]) for _ in range(n)]
+            out.append(x_arith.observe_arith(fx, np, ['C03'], op, (sx, wx, fx_), (sy, wy, fy_), cx, cy, scalar=(n == 1), sizing='optimal',
+                                             route='function', method=rng.choice(['raw', 'raw', 'repr']) if wx + wy <= 50 else 'raw',
+                                             target=rng.choice(['out', 'out_like']), tfmt=(True, tw, tf_), tmodes=(rng.choice(ROUND), 'wrap'),
+                                             extra={'register': True}))
         # n_word in 64..256 with Python-integer inputs of any size (the int64/object switch)
         for _ in range(count // 2 + 1):
             s = rng.random() < 0.5
